@@ -6,6 +6,7 @@
 From Coq Require Import List ZArith Bool.
 From V Require Import Gen.Params Lib.Hex ConnAccept.Model ConnAccept.Proofs ServerAccept.Model ServerAccept.Proofs EarlyData.Model EarlyData.Proofs
                       AmpToken.TokenModel AmpToken.TokenProofs ServerAccept.Bridge ServerAccept.BridgeInstance.
+From V Require SentPH.Model SentPH.ProofsBase SentPH.ProofsOps2 SentPH.ProofsOps3 SentPH.ProofsMain SendStream.Model EarlyData.Compose.
 Import ListNotations.
 Open Scope Z_scope.
 
@@ -368,3 +369,46 @@ Example C13_retry_token_bound_example :
     exists o, In o (flat_map (to_sops Z Instance.openI Instance.unmarshalI 7 bi_addr 86400 500) bi_pre) /\ retry_cause bi_cfg a0' bi_dcid cs o.
 Proof. exact bi_bound. Qed.
 Print Assumptions C13_retry_token_bound_example.
+
+(** ---- C13_0rtt_reject_no_retransmit: the client's rejection path on the TIED unit models (proof-level composition
+    of V.SentPH.Model — C06, unit sentph — and V.SendStream.Model — C01, unit sendstream; they meet at the callback
+    interface: an OnLost callback of the sent-packet handler for a STREAM frame is the stream's OLost) ---- *)
+
+(** Sent-packet handler: after DropPackets(0-RTT), in every continuation of the history, no frame of a dropped 0-RTT packet
+    is ever reported lost (or acknowledged), and none stays tracked — unless the same frame is handed to SentPacket
+    again (NoDup of the handed frame ids: a re-sent frame is a new frame, i.e. the application wrote again). *)
+Theorem C13_0rtt_reject_no_retransmit :
+  forall client validated ipn period maxPeriod rnd0 ops1 now orc ops2,
+  0 <= ipn ->
+  let st1 := SentPH.Model.run (SentPH.Model.init client validated ipn period maxPeriod rnd0) ops1 in
+  SentPH.ProofsMain.executed st1 (SentPH.Model.ODrop sph_Enc0RTT now) = true ->
+  let '(st, D, H) := SentPH.ProofsMain.history_from client validated ipn period maxPeriod rnd0
+                       (ops1 ++ (SentPH.Model.ODrop sph_Enc0RTT now, orc) :: ops2) in
+  NoDup H ->
+  forall id, In id (SentPH.ProofsOps2.ids_of (SentPH.ProofsOps3.take0rtt (SentPH.ProofsBase.pk st1 SentPH.ProofsBase.SA))) ->
+    SentPH.ProofsBase.cntcb id (SentPH.Model.sCbs st) = 0 /\ ~ In id (SentPH.ProofsMain.tracked_ids st).
+Proof. exact EarlyData.Compose.PH.zero_rtt_reject_no_callback. Qed.
+Print Assumptions C13_0rtt_reject_no_retransmit.
+
+(** Send stream: without an OnLost callback nothing is ever re-emitted — whatever else happens to the stream,
+    closeForShutdown included (it skips streams whose writing side is already closed: they keep their state, so only an
+    OnLost could make them send again): the retransmission queue stays empty, every emitted frame is new data. *)
+Theorem C13_0rtt_stream_resends_only_on_lost : forall ops s,
+  forallb EarlyData.Compose.SS.not_lost ops = true -> SendStream.Model.retransQ s = [] ->
+  SendStream.Model.retransQ (SendStream.Model.run_state s ops) = [] /\
+  exists X, SendStream.Model.emitted (SendStream.Model.run_state s ops) = SendStream.Model.emitted s ++ X /\
+            SendStream.Model.emittedNew (SendStream.Model.run_state s ops) = SendStream.Model.emittedNew s ++ X.
+Proof. exact EarlyData.Compose.SS.no_lost_no_retransmit. Qed.
+Print Assumptions C13_0rtt_stream_resends_only_on_lost.
+
+(** non-vacuity: a client sends STREAM frame 5 in a 0-RTT packet; DropPackets(0-RTT) is executable and discards exactly that
+    frame; afterwards a loss-detection timeout and an ACK-less wait never produce a callback for it *)
+Example C13_0rtt_reject_no_retransmit_example :
+  let orc : SentPH.Model.oracle := (1000, 3000, 3000) in
+  let ops1 := [(SentPH.Model.OSend sph_Enc0RTT 10 0 [5] [] 300 false false 0, orc)] in
+  let st1 := SentPH.Model.run (SentPH.Model.init true false 0 100 1000 7) ops1 in
+  SentPH.ProofsMain.executed st1 (SentPH.Model.ODrop sph_Enc0RTT 20) = true /\
+  SentPH.ProofsOps2.ids_of (SentPH.ProofsOps3.take0rtt (SentPH.ProofsBase.pk st1 SentPH.ProofsBase.SA)) = [5] /\
+  SentPH.Model.sCbs (SentPH.Model.run st1 [(SentPH.Model.ODrop sph_Enc0RTT 20, orc); (SentPH.Model.OTimeout 5000 0, orc)]) = [].
+Proof. vm_compute. repeat split. Qed.
+Print Assumptions C13_0rtt_reject_no_retransmit_example.
